@@ -25,7 +25,7 @@ try:
         open(p, "w").write(s.replace(old, new))
     for c in checks:
         t = time.time()
-        r = sh(f"cd /verif && VERIF_SEED={os.environ.get('VERIF_SEED','0')} ./check {c} {tier}")
+        r = sh(f"cd /verif && VERIF_EVIDENCE_DIR=/tmp/verif-mut-evidence VERIF_SEED={os.environ.get('VERIF_SEED','0')} ./check {c} {tier}")
         viol = [l for l in r.stdout.splitlines() if l.startswith("VIOLATION")]
         tag = "CAUGHT" if r.returncode == 1 and viol else ("INCONCLUSIVE" if r.returncode == 2 else "MISSED")
         print(f"{tag} check={c} exit={r.returncode} {time.time()-t:.1f}s")
